@@ -1,7 +1,7 @@
 (* Glue between interchange values and the model: one named entry per operation.  Kept in Coq so that
    the OCaml driver stays a dumb parser/printer. *)
 From Coq Require Import NArith List Bool String.
-From DBG Require Import Interop.Val Spec.Dna Packed.KmerModel.
+From DBG Require Import Interop.Val Spec.Dna Packed.KmerModel Algo.KmerHist.
 Import ListNotations.
 Open Scope N_scope.
 
@@ -12,6 +12,28 @@ Fixpoint lookup (op : string) (tbl : list (string * handler)) : option handler :
   | [] => None
   | (n, h) :: r => if String.eqb op n then Some h else lookup op r
   end.
+
+(* histories: init ( 0 ) | ( 1 v ) | ( 2 bytes ) | ( 3 ascii ); op ( 0 b ) ExtL | ( 1 b ) ExtR | ( 2 ) Rc |
+   ( 3 pos b ) Set | ( 4 pos n v ) SetSlice | ( 5 ) MinRc *)
+Definition v_kinit (v : val) : option kinit :=
+  match v with
+  | VL [VN 0] => Some IEmpty
+  | VL [VN 1; VN x] => Some (IFromU64 x)
+  | VL [VN 2; VL l] => match vlistN l with Some d => Some (IFromBytes d) | None => None end
+  | VL [VN 3; VL l] => match vlistN l with Some d => Some (IFromAscii d) | None => None end
+  | _ => None
+  end.
+Definition v_kop (v : val) : option kop :=
+  match v with
+  | VL [VN 0; VN b] => Some (OExtL b)
+  | VL [VN 1; VN b] => Some (OExtR b)
+  | VL [VN 2] => Some ORc
+  | VL [VN 3; VN pos; VN b] => Some (OSet (N.to_nat pos) b)
+  | VL [VN 4; VN pos; VN n; VN x] => Some (OSetSlice (N.to_nat pos) (N.to_nat n) x)
+  | VL [VN 5] => Some OMinRc
+  | _ => None
+  end.
+Definition cmp_code (c : comparison) : N := match c with Lt => 0 | Eq => 1 | Gt => 2 end.
 
 (* ---- k-mer operations: input ( W K args.. ) *)
 Definition kmer_ops (c : kcfg) : list (string * handler) :=
@@ -37,6 +59,10 @@ Definition kmer_ops (c : kcfg) : list (string * handler) :=
     ("k.min_rc"%string, fun a => match a with [VN s] => Some (ofopt ofN (min_rc c s)) | _ => None end);
     ("k.is_palindrome"%string, fun a => match a with [VN s] => Some (ofopt ofbool (kis_palindrome c s)) | _ => None end);
     ("k.extend"%string, fun a => match a with [VN s; VN b; VN d] => Some (ofopt ofN (kextend c s b (negb (d =? 0)))) | _ => None end);
+    ("k.hist"%string, fun a => match a with [i; VL ops] =>
+        match v_kinit i, omap v_kop ops with Some i', Some ops' => Some (ofopt ofN (khist c i' ops')) | _, _ => None end | _ => None end);
+    ("k.hash_feed"%string, fun a => match a with [VN s] => Some (ofNs (hash_feed c s)) | _ => None end);
+    ("k.cmp"%string, fun a => match a with [VN s1; VN s2] => Some (VL [ofbool (k_eq s1 s2); VN (cmp_code (k_cmp s1 s2))]) | _ => None end);
     (* the decoded string: the harness compares it with the bases the implementation reports *)
     ("k.decode"%string, fun a => match a with [VN s] => Some (ofNs (decode (kK c) s)) | _ => None end)
   ].
@@ -69,6 +95,14 @@ Definition spec_kmer_ops (K : nat) : list (string * handler) :=
     ("s.k.kmers_from_ascii"%string, fun a => match a with [VL l] => match vlistN l with Some d => Some (VL (map ofNs (kmers K (map ascii_base d)))) | None => None end | _ => None end);
     ("s.k.min_rc"%string, fun a => match a with [VL l] => match vlistN l with Some d => Some (ofNs (canon d)) | None => None end | _ => None end);
     ("s.k.min_rc_flip"%string, fun a => match a with [VL l] => match vlistN l with Some d => Some (let p := canon_flip d in VL [ofNs (fst p); ofbool (snd p)]) | None => None end | _ => None end);
+    ("s.k.hist"%string, fun a => match a with [i; VL ops] =>
+        match v_kinit i, omap v_kop ops with Some i', Some ops' => Some (ofNs (shist K i' ops')) | _, _ => None end | _ => None end);
+    ("s.k.cmp"%string, fun a => match a with [VL l; VL m] => match vlistN l, vlistN m with
+        | Some d, Some e => Some (VL [ofbool (dna_eqb d e); VN (cmp_code (dna_compare d e)); ofbool (dna_eqb d e)]) | _, _ => None end | _ => None end);
+    ("s.k.sort_dedup"%string, fun a => match a with [VL ls] => match omap vNs ls with
+        | Some ds => Some (VL (map ofNs (dedup_by dna_eqb (sort_by dna_leb ds)))) | None => None end | _ => None end);
+    ("s.k.member"%string, fun a => match a with [VL ls; VL x] => match omap vNs ls, vlistN x with
+        | Some ds, Some d => Some (ofbool (existsb (dna_eqb d) ds)) | _, _ => None end | _ => None end);
     ("s.k.is_palindrome"%string, fun a => match a with [VL l] => match vlistN l with Some d => Some (ofbool (is_palindrome d)) | None => None end | _ => None end)
   ].
 Definition d_spec_kmer (op : string) (v : val) : option val :=
